@@ -487,6 +487,11 @@ pub fn string_table(file: &syn::File, name: &str) -> Option<Vec<String>> {
                 self.out = Some(collect_strs(&i.expr));
             }
         }
+        fn visit_impl_item_const(&mut self, i: &'ast syn::ImplItemConst) {
+            if i.ident == self.name {
+                self.out = Some(collect_strs(&i.expr));
+            }
+        }
     }
     let mut v = V { name, out: None };
     v.visit_file(file);
@@ -511,4 +516,12 @@ fn collect_strs(e: &Expr) -> Vec<String> {
     let mut s = S(vec![]);
     s.visit_expr(e);
     s.0
+}
+
+pub fn lean_chars(s: &str) -> String {
+    let parts: Vec<String> = s
+        .chars()
+        .map(|c| if c.is_ascii_alphanumeric() || c == '_' || c == ' ' || c == '-' { format!("'{c}'") } else { lean_char(c) })
+        .collect();
+    format!("[{}]", parts.join(", "))
 }
